@@ -207,7 +207,9 @@ func c09ObjStmts() []struct {
 		{"for (k, v in b)", func() Stmt { return forIn("k", "v", V("b"), "b") }},
 		{"print a", func() Stmt { return Pr(S("print"), V("a")) }},
 		{"add(a, 'z')", func() Stmt { return Ex(CallE(V("add"), V("a"), S("z"))) }},
-		{"lengths", func() Stmt { return Pr(S("len"), CallE(Mem(V("a"), "length")), CallE(Mem(V("b"), "length")), CallE(Mem(V("e"), "length"))) }},
+		{"lengths", func() Stmt {
+			return Pr(S("len"), CallE(Mem(V("a"), "length")), CallE(Mem(V("b"), "length")), CallE(Mem(V("e"), "length")))
+		}},
 		{"b = {}", func() Stmt { return Ex(Asg("=", V("b"), &ObjLit{})) }},
 		{"pluck", func() Stmt {
 			return Blk(Ex(Asg("=", V("c"), CallE(Mem(V("a"), "pluck"), S("m"), S("y")))), Ex(Asg("=", Mem(V("c"), "w"), N("1"))), Pr(S("c"), V("c")))
@@ -254,7 +256,9 @@ func c09MixStmts() []struct {
 		st   func() Stmt
 	}{
 		{"a = [3, 1, 2]", func() Stmt { return Ex(Asg("=", a(), Arr_(N("3"), N("1"), N("2")))) }},
-		{"o = {k: 1, j: [5]}", func() Stmt { return Ex(Asg("=", o(), &ObjLit{Keys: []string{"k", "j"}, Vals: []Expr{N("1"), Arr_(N("5"))}})) }},
+		{"o = {k: 1, j: [5]}", func() Stmt {
+			return Ex(Asg("=", o(), &ObjLit{Keys: []string{"k", "j"}, Vals: []Expr{N("1"), Arr_(N("5"))}}))
+		}},
 		{"n = n + 1", func() Stmt { return Ex(Asg("=", n(), Bin("+", n(), N("1")))) }},
 		{"a.push(n)", func() Stmt { return Ex(call(a(), "push", n())) }},
 		{"b = a", func() Stmt { return Ex(Asg("=", V("b"), a())) }},
@@ -292,7 +296,9 @@ func c09MixStmts() []struct {
 		}},
 		{"printf", func() Stmt { return Ex(CallE(V("printf"), S("%4v|%s|%f\n"), a(), sv(), n())) }},
 		{"s = s + n", func() Stmt { return Ex(Asg("=", sv(), Bin("+", sv(), n()))) }},
-		{"c = [a, a]; c[0].push(7)", func() Stmt { return Blk(Ex(Asg("=", V("c"), Arr_(a(), a()))), Ex(call(Idx(V("c"), N("0")), "push", N("7")))) }},
+		{"c = [a, a]; c[0].push(7)", func() Stmt {
+			return Blk(Ex(Asg("=", V("c"), Arr_(a(), a()))), Ex(call(Idx(V("c"), N("0")), "push", N("7"))))
+		}},
 		{"$.seen = n", func() Stmt { return &If{Cond: &IsExpr{V("$"), "object"}, Then: Ex(Asg("=", Mem(V("$"), "seen"), n()))} }},
 	}
 }
